@@ -211,6 +211,26 @@ theorem getElem?_set_self' {α} {l : List α} {i : Nat} {x y : α} (h : l[i]? = 
     · rw [List.getElem?_eq_none h'] at h; cases h
   simp [List.getElem?_set, this]
 
+theorem Sess.closeEnd_ok {sid : StateId} {me1 : Sess}
+    (h : ∀ er, (Gluon.flush true true sid me1.snap me1.res).result ≠ .err er) :
+    me1.closeEnd sid = ({ me1 with sel := none, snap := [], res := [] }, {}) := by
+  unfold Sess.closeEnd
+  cases hr : (Gluon.flush true true sid me1.snap me1.res).result with
+  | err er => exact absurd hr (h er)
+  | ok out => simp only [hr]
+  | mergePanic => simp only [hr]
+
+/-- under the session invariant CLOSE ends well: the flush does not fail, the mailbox is closed -/
+theorem SessInv.closeEnd {idx : Index} {i : Nat} {s : Sess} {mb : Nat} (h : SessInv idx i s) (hs : s.sel = some mb) :
+    s.closeEnd (sidOf i) = ({ s with sel := none, snap := [], res := [] }, {}) := by
+  apply Sess.closeEnd_ok
+  intro er
+  unfold SessInv at h
+  rw [hs] at h
+  have hh := h.2.1
+  unfold Sess.virt at hh
+  exact hh.close_flush_not_err er
+
 /-- **one step keeps the invariant** -/
 theorem step_inv {s : Sys} (h : SysInv s) (op : SysOp) (hv : op.Valid) (hno : OpNoOvertake s op) :
     SysInv (step s op).1 := by
@@ -321,6 +341,70 @@ theorem step_inv {s : Sys} (h : SysInv s) (op : SysOp) (hv : op.Valid) (hno : Op
       simp only [hj, Option.map_some, Option.some.injEq] at hx
       subst hx
       exact (h.sess j sj hj).enqueue g.1
+  | close i =>
+    simp only [step]
+    cases hi : s.sess[i]? with
+    | none => exact h
+    | some me =>
+      simp only
+      have hme := h.sess i me hi
+      cases he : effect s.idx me (sidOf i) .expunge with
+      | none => exact h
+      | some e =>
+        simp only
+        have hselb : ∀ mb, me.sel = some mb → mb < s.idx.boxes.length := by
+          intro mb hs
+          unfold SessInv at hme
+          rw [hs] at hme
+          exact hme.1
+        have hsnap : ∀ mb, me.sel = some mb → ∀ x ∈ me.snap, x.id < s.idx.nextId := by
+          intro mb hs x hx
+          unfold SessInv at hme
+          rw [hs] at hme
+          exact hme.2.2.snap x hx
+        have g := good_effect h.wf hselb hsnap he
+        have hsess1 : ∀ j x, (s.sess.mapIdx fun j sj =>
+            if j = i then sj.applyAll (sidOf i) false e.silent e.ups else sj.enqueue e.ups)[j]? = some x →
+            SessInv e.idx j x := by
+          intro j x hx
+          rw [List.getElem?_mapIdx] at hx
+          cases hj : s.sess[j]? with
+          | none => simp [hj] at hx
+          | some sj =>
+            simp only [hj, Option.map_some, Option.some.injEq] at hx
+            subst hx
+            by_cases hij : j = i
+            · subst hij
+              simp only [if_true]
+              rw [hi] at hj
+              simp only [Option.some.injEq] at hj
+              subst hj
+              exact hme.own g.1 e.silent (fun mb hs => hno me mb e hi hs he)
+            · simp only [hij, if_false]
+              exact (h.sess j sj hj).enqueue g.1
+        have hm1 : (s.sess.mapIdx fun j sj =>
+            if j = i then sj.applyAll (sidOf i) false e.silent e.ups else sj.enqueue e.ups)[i]? =
+            some (me.applyAll (sidOf i) false e.silent e.ups) := by
+          rw [List.getElem?_mapIdx, hi]; simp
+        rw [hm1]
+        simp only [Option.getD_some]
+        have hme1 := hsess1 i _ hm1
+        obtain ⟨mb, hsel⟩ : ∃ mb, me.sel = some mb := by
+          cases hs : me.sel with
+          | none => simp [effect, hs] at he
+          | some mb => exact ⟨mb, rfl⟩
+        rw [hme1.closeEnd (mb := mb) (by rw [applyAll_sel]; exact hsel)]
+        refine ⟨g.2, ?_⟩
+        intro j x hx
+        simp only [List.getElem?_set] at hx
+        split at hx
+        · next hij =>
+          subst hij
+          split at hx
+          · simp only [Option.some.injEq] at hx; subst hx
+            simp [SessInv]
+          · cases hx
+        · exact hsess1 j x hx
   | cmd i c =>
     simp only [step]
     cases hi : s.sess[i]? with
